@@ -12,6 +12,12 @@ for c in $checks; do
   if echo "$out" | grep -q "^VIOLATION"; then res="$res $c:CAUGHT"; cp -f replays/$c-violation-1.json "seeded/$d/replay-$c.json" 2>/dev/null; else res="$res $c:pass"; fi
 done
 git -C /repo checkout -- .
+# a check that "catches" the change must be quiet on the unchanged tree for the same cases: replay what it reported
+for c in $checks; do
+  if [ -f "seeded/$d/replay-$c.json" ] && echo "$res" | grep -q " $c:CAUGHT"; then
+    if ./check $c --replay "seeded/$d/replay-$c.json" 2>&1 | grep -q "^VIOLATION"; then res=$(echo "$res" | sed "s/ $c:CAUGHT/ $c:RED-ON-THE-UNCHANGED-TREE/"); fi
+  fi
+done
 # what the run wrote from the patched tree must not stay: the generated level table and the evidence files
 git -C /verif checkout -- evidence lean/MechVerif/Gen 2>/dev/null
 rm -f replays/*-violation-1.json
